@@ -120,12 +120,8 @@ def run(cmd, timeout=None, mem_gb=None, cwd=None, env=None, out=None):
             fh.close()
 
 
-def kani_codegen(scratch, suite, logdir):
-    """Compile the harness module into dryoc; returns {harness name: (symtab, mangled)}."""
-    hfile = os.path.join(scratch.dir, "harness_%s.rs" % suite.prop)
-    with open(hfile, "w") as f:
-        f.write(suite.source)
-    target = os.path.join(scratch.dir, "target-kani")
+def _codegen_chunk(scratch, suite, hfile, names, idx, logdir):
+    target = os.path.join(scratch.dir, "target-kani-%s-%d" % (suite.prop, idx))
     env = dict(os.environ)
     env.update({
         "DRYOC_VERIF_HARNESS": hfile,
@@ -134,12 +130,17 @@ def kani_codegen(scratch, suite, logdir):
     })
     cmd = ["cargo", "kani", "-Z", "stubbing", "--only-codegen", "--no-assertion-reach-checks",
            "--target-dir", target]
+    for n in names:
+        cmd += ["--harness", "verif_harness::" + n]
+    cmd += ["--exact"]
+    if suite.clibs:
+        cmd[2:2] = ["-Z", "c-ffi"]
     if suite.features:
         cmd += ["--features", ",".join(suite.features)]
-    out = os.path.join(logdir, "codegen.log")
-    rc, secs, to = run(cmd, timeout=1800, cwd=scratch.repo, env=env, out=out)
+    out = os.path.join(logdir, "codegen-%d.log" % idx)
+    rc, secs, to = run(cmd, timeout=2400, cwd=scratch.repo, env=env, out=out)
     if rc != 0:
-        tail = open(out).read()
+        tail = open(out, errors="replace").read()
         errs = [l for l in tail.splitlines() if l.startswith("error")]
         raise BuildError("kani codegen failed (rc=%s): %s" % (rc, "; ".join(errs[:5]) or tail[-2000:]), out)
     res = {}
@@ -147,18 +148,35 @@ def kani_codegen(scratch, suite, logdir):
         for fn in files:
             if fn.endswith(".symtab.out"):
                 m = re.match(r"^[^_]*?-[0-9a-f]+_(_R.*)\.symtab\.out$", fn)
-                if not m:
-                    continue
-                mangled = m.group(1)
-                res[mangled] = os.path.join(root, fn)
+                if m:
+                    res[m.group(1)] = os.path.join(root, fn)
     byname = {}
-    for h in suite.harnesses:
-        key = "13verif_harness%d%s" % (len(h.name), h.name)
+    for n in names:
+        key = "13verif_harness%d%s" % (len(n), n)
         hits = [(m, p) for m, p in res.items() if m.endswith(key)]
         if len(hits) != 1:
-            raise BuildError("harness %s: %d symtab files" % (h.name, len(hits)), out)
-        byname[h.name] = (hits[0][1], hits[0][0])
-    return byname, secs
+            raise BuildError("harness %s: %d symtab files" % (n, len(hits)), out)
+        byname[n] = (hits[0][1], hits[0][0])
+    return byname
+
+
+def kani_codegen(scratch, suite, logdir):
+    """Compile the harness module into dryoc (Kani: MIR -> GOTO symbol tables), in parallel chunks.
+    Returns {harness name: (symtab, mangled name)}."""
+    t0 = time.time()
+    hfile = os.path.join(scratch.dir, "harness_%s.rs" % suite.prop)
+    with open(hfile, "w") as f:
+        f.write(suite.source)
+    names = [h.name for h in suite.harnesses]
+    per = int(os.environ.get("VERIF_CODEGEN_CHUNK", "28"))
+    nchunks = max(1, min(4, (len(names) + per - 1) // per))
+    chunks = [names[i::nchunks] for i in range(nchunks)]
+    byname = {}
+    with cf.ThreadPoolExecutor(max_workers=nchunks) as ex:
+        futs = [ex.submit(_codegen_chunk, scratch, suite, hfile, c, i, logdir) for i, c in enumerate(chunks)]
+        for fu in futs:
+            byname.update(fu.result())
+    return byname, time.time() - t0
 
 
 class BuildError(Exception):
